@@ -34,13 +34,14 @@ type fragment struct {
 	nAss0    int     // assumptions before the fragment's own (for loop fragments: before the invariant)
 }
 
-var lawRe = regexp.MustCompile(`^(EXT|RES|EXTSCAN|RESSCAN)\(([^)]*)\)\s*(?:ignoring\s+(\S+)\s*)?(?:when\s+(.*))?$`)
+var lawRe = regexp.MustCompile(`^(EXT|RES|EXTSCAN|RESSCAN|SHIFT)\(([^)]*)\)\s*(?:ignoring\s+(\S+)\s*)?(?:positions\s+([A-Za-z0-9_, ]+?)\s*)?(?:when\s+(.*))?$`)
 
 type lawSpec struct {
 	kind   string
 	params []string
 	when   string
 	ignore string // "p.field": an internal bookkeeping cell that is dead inside the loops and on error returns
+	positions map[string]bool // SHIFT: locals and results that are buffer positions
 	clause *Clause
 }
 
@@ -49,7 +50,12 @@ func parseLaw(c *Clause) (*lawSpec, error) {
 	if m == nil {
 		return nil, fmt.Errorf("bad law clause %q", c.Text)
 	}
-	ls := &lawSpec{kind: m[1], when: m[4], ignore: m[3], clause: c}
+	ls := &lawSpec{kind: m[1], when: m[5], ignore: m[3], clause: c, positions: map[string]bool{}}
+	for _, p := range strings.Split(m[4], ",") {
+		if p = strings.TrimSpace(p); p != "" {
+			ls.positions[p] = true
+		}
+	}
 	for _, p := range strings.Split(m[2], ",") {
 		if p = strings.TrimSpace(p); p != "" {
 			ls.params = append(ls.params, p)
@@ -294,6 +300,8 @@ func (x *Exec) proveLaws() {
 			x.lawEXT(fr, frags, ls, args, nEntry)
 		case "RES", "RESSCAN":
 			x.lawRES(fr, frags, ls, args, nEntry)
+		case "SHIFT":
+			x.lawSHIFT(fr, frags, ls, args, nEntry)
 		default:
 			x.fail("law %s not implemented", ls.kind)
 		}
@@ -1038,4 +1046,170 @@ func sameOutcomeIgn(p, q *outcome, skipP, skipQ *Term, ig *ignoreSpec, vc int) *
 		}
 	}
 	return Or(alts...)
+}
+
+// ---------------------------------------------------------------------------------------------------------
+// SHIFT(buf, offs) positions p1, p2, ...: run B sees the same text K bytes further into its buffer: the slice
+// header of buf is (off-K, len+K) over the same memory, so B's buf[j+K] is A's buf[j], preceded by K arbitrary
+// bytes; B starts at offs+K. Claim: B returns what A returns, with every result named in `positions` moved
+// by K and every other result equal. Obligations per fragment, by substitution (off := off-K, len := len+K,
+// cap := cap+K, offs := offs+K, every positional configuration variable v := v+K):
+//   ret:   F_A returns                 ==>  F_B returns, positional results + K, the others equal
+//   head:  F_A reaches loop head h     ==>  F_B reaches h, positional configuration variables + K, others equal
+// Only for functions that modify no object. Callee SHIFT laws are hypotheses at matching call sites.
+func (x *Exec) lawSHIFT(fr *Frame, frags []*fragment, ls *lawSpec, args []Val, nEntry int) {
+	fi := x.Top
+	if len(ls.params) != 2 {
+		x.fail("SHIFT(buf, offs) takes the buffer and the offset parameter")
+	}
+	bi, oi := paramIndex(fi, ls.params[0]), paramIndex(fi, ls.params[1])
+	if bi < 0 || oi < 0 {
+		x.fail("SHIFT: unknown parameter")
+	}
+	off, L, cp := args[bi].C[1], args[bi].C[2], args[bi].C[3]
+	offsVar := args[oi].C[0]
+	K := Var("shift!K", BV64)
+	st0 := &State{G: True(), Loc: map[int][]*Term{}, Heap: map[*Sort]*Term{}}
+	if len(x.regionObs(st0)) > 0 {
+		x.fail("SHIFT: only for functions that modify no object")
+	}
+	when := x.whenTerm(fi, ls, args, st0)
+	fragByHead := map[*ssa.BasicBlock]*fragment{}
+	for _, f := range frags[1:] {
+		fragByHead[f.ld.header] = f
+	}
+	posName := func(hv *Term) bool {
+		if hv.Op != "var" {
+			return false
+		}
+		n := hv.Name
+		if i := strings.Index(n, "."); i >= 0 && strings.HasPrefix(n, "L") {
+			n = n[i+1:]
+		}
+		if j := strings.LastIndex(n, "!"); j >= 0 {
+			n = n[:j]
+		}
+		return ls.positions[n]
+	}
+	for _, f := range frags {
+		sub := map[*Term]*Term{off: BVSub(off, K), L: BVAdd(L, K), cp: BVAdd(cp, K), offsVar: BVAdd(offsVar, K)}
+		for _, hv := range f.headVars {
+			if posName(hv) {
+				sub[hv] = BVAdd(hv, K)
+			}
+		}
+		env := &lawEnv{sub: sub, memo: map[*Term]*Term{}}
+		var extra []*Term
+		extra = append(extra, SLE(BV(0, 64), K), SLE(BVAdd(L, K), BV(65535, 64)), SLE(L, BVAdd(L, K)), when, env.B(when))
+		for _, a := range x.Assumes[:f.nAss] {
+			if b := env.B(a); b != a {
+				extra = append(extra, b)
+			}
+		}
+		extra = append(extra, x.calleeShiftHyps(f, env, K)...)
+		mk := func(site string, goal *Term, note string) {
+			o := &Obligation{Name: fmt.Sprintf("%s/law:%s/%s/%s", x.TopKey, ls.kind, f.name, site), Kind: "law", Func: x.TopKey, Tags: ls.clause.Tags,
+				Guard: True(), Goal: goal, NAssume: f.nAss, Extra: extra, Expect: "unsat", ex: x, Note: note}
+			if f.ld != nil {
+				o.Pos = x.W.Fset.Position(f.ld.header.Instrs[0].Pos())
+			} else {
+				o.Pos = x.W.Fset.Position(fi.Fn.Pos())
+			}
+			x.Obls = append(x.Obls, o)
+		}
+		if len(f.rets) > 0 {
+			ms, mv := x.mergeRets(f.rets)
+			if len(mv.C) != len(fi.RNames) {
+				x.fail("SHIFT: results must be scalars")
+			}
+			var eqs []*Term
+			eqs = append(eqs, env.B(ms.G))
+			for k, t := range mv.C {
+				if ls.positions[fi.RNames[k]] {
+					eqs = append(eqs, Eq(env.B(t), BVAdd(t, K)))
+				} else {
+					eqs = append(eqs, Eq(env.B(t), t))
+				}
+			}
+			mk("ret", Implies(ms.G, And(eqs...)), "SHIFT: the same text K bytes further gives the same results, positions moved by K")
+		}
+		var hs []*ssa.BasicBlock
+		for h := range f.arr {
+			hs = append(hs, h)
+		}
+		sort.Slice(hs, func(i, j int) bool { return hs[i].Index < hs[j].Index })
+		for _, h := range hs {
+			ma := x.mergeArr(f.arr[h])
+			cfg := x.configObs(fr, ma, analyzeCFG(fi.Fn).loops[h])
+			fh := fragByHead[h]
+			var eqs []*Term
+			eqs = append(eqs, env.B(ma.G))
+			for j, t := range cfg {
+				if t == off || t == L || t == cp {
+					continue // the buffer header differs by construction
+				}
+				pos := t == offsVar
+				if fh != nil && j < len(fh.headVars) && posName(fh.headVars[j]) {
+					pos = true
+				}
+				if pos {
+					eqs = append(eqs, Eq(env.B(t), BVAdd(t, K)))
+				} else {
+					eqs = append(eqs, Eq(env.B(t), t))
+				}
+			}
+			mk(fmt.Sprintf("head%d", analyzeCFG(fi.Fn).loops[h].ord), Implies(ma.G, And(eqs...)),
+				"SHIFT: while the run continues, the shifted run is in the shifted configuration")
+		}
+	}
+	_ = nEntry
+}
+
+// calleeShiftHyps: instances of the callees' SHIFT laws at the call sites of fragment f
+func (x *Exec) calleeShiftHyps(f *fragment, env *lawEnv, K *Term) []*Term {
+	var out []*Term
+	for _, c := range x.calls[f.calls0:f.calls1] {
+		var ls *lawSpec
+		for _, cl := range c.FI.C.Laws {
+			if l, err := parseLaw(cl); err == nil && l.kind == "SHIFT" && x.tagOn(cl.Tags) {
+				ls = l
+			}
+		}
+		if ls == nil || len(ls.params) != 2 {
+			continue
+		}
+		bi, oi := paramIndex(c.FI, ls.params[0]), paramIndex(c.FI, ls.params[1])
+		if bi < 0 || oi < 0 || bi >= len(c.ArgStart) || oi >= len(c.ArgStart) {
+			continue
+		}
+		offIdx, lenIdx, capIdx, offsIdx := c.ArgStart[bi]+1, c.ArgStart[bi]+2, c.ArgStart[bi]+3, c.ArgStart[oi]
+		var prem []*Term
+		for k, t := range c.FP {
+			switch k {
+			case offIdx:
+				prem = append(prem, Eq(env.B(t), BVSub(t, K)))
+			case lenIdx, capIdx, offsIdx:
+				prem = append(prem, Eq(env.B(t), BVAdd(t, K)))
+			default:
+				prem = append(prem, Eq(env.B(t), t))
+			}
+		}
+		if ls.when != "" {
+			st0 := &State{G: True(), Loc: map[int][]*Term{}, Heap: map[*Sort]*Term{}}
+			prem = append(prem, x.whenTerm(c.FI, ls, c.Args, st0))
+		}
+		if len(c.Outs) != len(c.FI.RNames) {
+			continue // results only (callees with SHIFT laws modify no object)
+		}
+		var concl []*Term
+		for k, o := range c.Outs {
+			if ls.positions[c.FI.RNames[k]] {
+				concl = append(concl, Eq(env.B(o), BVAdd(o, K)))
+			} else {
+				concl = append(concl, Eq(env.B(o), o))
+			}
+		}
+		out = append(out, Implies(And(append(prem, c.Guard)...), And(concl...)))
+	}
+	return out
 }
